@@ -10,6 +10,58 @@ ENGINES = [
 ]
 NA = {}
 TEXT = {
+    "C10": {
+        "engine": "rrtk-mc c10-seqs-exact + c10-seqs-broad + c10-deviations + c10-units",
+        "technique": "stateless bounded-exhaustive exploration of sample/absent/error histories (all 18^d, all 14^d broad, deviation-bounded H/k) on the five real streams against rational-style reference models; exhaustive 7x7 unit grid",
+        "text": "Integral, derivative and the three to-state converters: every history to depth 5 (6) over 16 present "
+                "symbols (4 intervals x 4 values) + N + E1 plus 24/2 (64/3) long histories; after each present sample the "
+                "output must equal trapezoid sums / backward differences applied once or twice, absent until 2 resp. 3 "
+                "samples, stamped with the newest sample, unit = input*s or input/s; to-state converters must panic "
+                "exactly on ill-dimensioned present samples; shift by -1e15/+11/+1e17 ns bit-identical.",
+        "note": "Values/intervals from fixed alphabets (1 us .. 1 h); non-uniform spacing and non-linear signals are in the "
+                "alphabet precisely because equal spacing hides rectangle-vs-trapezoid and first-vs-second difference slips.",
+    },
+    "C11": {
+        "engine": "rrtk-mc c11-seqs-set + c11-seqs-follow + c11-deviations",
+        "technique": "stateless bounded-exhaustive exploration of event histories {sample, absent, error, set(6 commands), followed-command change} on the real CommandPID against a staged reference model, all three initial command kinds",
+        "text": "All 12^6 (12^7 thorough) histories without following and 18^5 (18^6) with a followed command getter, x 3 "
+                "initial kinds, plus 24/2 (48/3) long histories; after every event (also after set) get() must equal the "
+                "reference: PID on the commanded component with kind-specific gains, output / integral / double integral, "
+                "absent for exactly 0/1/2 samples after start or reset, set(same) no-op, set(different) restarts, N "
+                "resets, E reported until next sample. Bit-exact on the dyadic alphabet.",
+        "note": "Two states, two intervals, six commands; gains distinct per kind so that a wrong selection shows.",
+    },
+    "C04": {
+        "engine": "rrtk-mc c04-seqs-exact + c04-seqs-broad + c04-deviations",
+        "technique": "stateless bounded-exhaustive exploration of input-event histories (all 12^d histories over an exact dyadic alphabet, all 14^d over a broad alphabet, all H-event histories within k deviations) on the real PIDControllerStream against a textbook reference model, with metamorphic (shift, power-of-two scale) and differential (composition from primitive streams) oracles",
+        "text": "Every history up to depth 5 (7 thorough) over {P(dt,v),N,E1,E2} x 4 gain sets is executed on a fresh real "
+                "controller; after every present sample the output must equal kp*e+ki*I+kd*D of the samples since the "
+                "last reset, bit-exactly on the dyadic alphabet and within a derived forward-error bound on the broad "
+                "one; 24/2 (64/3) deviation-bounded long histories cover integral accumulation. Shift by -1e15/+7/+1e17 "
+                "ns must be bit-identical, scaling by 2^-3/2^4 exact, and the controller composed from the crate's own "
+                "difference/integral/derivative/product/sum streams must agree.",
+        "note": "Gains, setpoints, values and intervals from fixed alphabets (intervals 1 us .. 1 h). The controller's memory "
+                "is one previous sample plus the integral, so depth >= 3 reaches every distinct stage.",
+    },
+    "C02": {
+        "engine": "rrtk-mc c02-nary + c02-fixed-arity",
+        "technique": "exhaustive enumeration of every input-category assignment {P,N,E1,E2}^arity x every weak order of the present timestamps for all 16 combinators, executed on the real streams against rustdoc-derived reference functions",
+        "text": "The combinators are stateless, so their behaviour is a function of the input categories, the relative "
+                "order of timestamps and the values; the first two are enumerated completely (arities 1..5 quick, 1..8 "
+                "thorough; every weak order), values are identifying primes. Checks category, payload, timestamp, error "
+                "precedence, Sum2/Product2 vs n-ary, De Morgan, and purity of three consecutive reads.",
+        "note": "Values from a fixed alphabet of distinct primes and units; open corners accepted both ways (see assumptions).",
+    },
+    "C03": {
+        "engine": "rrtk-mc c03-datum-operators + c03-selection-helpers + c03-stream-timestamps + c03-terminal-timestamps + c08 timestamp mode",
+        "technique": "exhaustive enumeration of all ordered timestamp pairs/weak orders over an alphabet with equal, adjacent, negative and extreme i64 values for every Datum operator impl x payload type, the replace/latest helpers, every combinator, terminal reads and device updates",
+        "text": "All 81 ordered pairs of {MIN, MIN+1, -2..2, MAX-1, MAX} for each of the 34 Datum operator impls (85 "
+                "payload instantiations, table checked against the source), the selection helpers incl. empty cases, "
+                "the C02 enumeration with the timestamp oracle only, terminal reads and device updates with all weak "
+                "timestamp orders (incl. negative times).",
+        "note": "A max-of-timestamps rule depends only on the order relation of its operands, which the alphabet covers "
+                "completely for pairs; payload values fixed.",
+    },
     "C05": {
         "engine": "rrtk-mc c05-seqs + c05-deviations + c05-freeze",
         "technique": "stateless bounded-exhaustive exploration of event histories on the real streams (all 5^d histories, d=8 quick / 10 thorough, plus all H-event histories within k deviations of the default stream) with differential oracles against fresh real streams",
